@@ -7,7 +7,7 @@
     vacuous (the rules before the repairs F11, F19, F16 and a parallel floating-point reduction
     fail it; so did the impurity sums of the decision tree before the repair F41). *)
 From Coq Require Import List NArith Bool Permutation Reals Floats.
-From LinfaVerif Require Import Common.Num Common.NdSum C09.Model C20.Model gen.C20_seeds C20.Proofs.
+From LinfaVerif Require Import Common.Num Common.NdSum Common.B32 C09.Model C20.Model gen.C20_seeds C20.F32Add C20.Proofs.
 Import ListNotations.
 
 (** ** Parallel loops *)
@@ -164,10 +164,10 @@ Proof.
   - exact ex_hier_old_order_dependent.
 Qed.
 
-(** sums of integer-valued weights below the exactness bound of the arithmetic (2^24 for binary32:
-    unit-weight class frequencies `values().sum::<f32>()`) are exact and therefore order free.
-    The exactness of small-integer addition is a hypothesis here (it is an IEEE fact, not proved for
-    the SpecFloat instance; `ex_b32_small_int_add` spot-checks it at the bound). *)
+(** sums of integer-valued weights below the exactness bound of the arithmetic are exact and
+    therefore order free - stated for any arithmetic that adds small integers exactly; the two
+    hypotheses are discharged for binary32 (bound 2^24) by [b32_small_int_add_exact] below, which
+    gives [b32_unit_weight_sum_order_independent] outright. *)
 Theorem small_int_sum_order_independent : forall F (o : NumOps F) (bound : N),
   (forall a b, (a + b <= bound)%N -> add o (of_N o a) (of_N o b) = of_N o (a + b)) ->
   of_N o 0%N = zero o ->
@@ -178,6 +178,33 @@ Proof.
   rewrite (seq_sum_small_ints o bound Hex H0 n1 Hb).
   rewrite (seq_sum_small_ints o bound Hex H0 n2); [|rewrite <- (fold_left_Nadd_perm n1 n2 P); exact Hb].
   rewrite (fold_left_Nadd_perm n1 n2 P). reflexivity.
+Qed.
+
+(** binary32 addition (SpecFloat at precision 24 / emax 128, the arithmetic the models run against
+    Rust's f32) of two integer-valued operands is exact as long as the sum does not exceed 2^24 *)
+Theorem b32_small_int_add_exact : forall a b : N, (a + b <= 16777216)%N ->
+  add B32_ops (of_N B32_ops a) (of_N B32_ops b) = of_N B32_ops (a + b).
+Proof. exact b32_add_small_ints. Qed.
+
+(** hence unit-weight class counts (`label_frequencies`, `values().sum::<f32>()`): any enumeration
+    order of the integer-valued f32 weights gives the same sum, bit for bit, and that sum is the
+    integer total - no hypothesis left *)
+Theorem b32_unit_weight_sum_order_independent : forall n1 n2 : list N,
+  Permutation n1 n2 -> (fold_left N.add n1 0 <= 16777216)%N ->
+  seq_sum B32_ops (map (of_N B32_ops) n1) = seq_sum B32_ops (map (of_N B32_ops) n2) /\
+  seq_sum B32_ops (map (of_N B32_ops) n1) = of_N B32_ops (fold_left N.add n1 0%N).
+Proof.
+  intros n1 n2 P Hb. split; [|exact (b32_seq_sum_small_ints n1 Hb)].
+  exact (small_int_sum_order_independent _ B32_ops 16777216%N b32_add_small_ints b32_of_N_0 n1 n2 P Hb).
+Qed.
+
+(** the bound is sharp: beyond 2^24 the binary32 sum of integers depends on the order *)
+Theorem b32_sum_beyond_bound_order_dependent : exists n1 n2 : list N,
+  Permutation n1 n2 /\ seq_sum B32_ops (map (of_N B32_ops) n1) <> seq_sum B32_ops (map (of_N B32_ops) n2).
+Proof.
+  exists [16777216; 1; 1]%N, [1; 1; 16777216]%N. split.
+  - exact (Permutation_cons_append [1; 1]%N 16777216%N).
+  - exact ex_b32_sum_beyond_bound.
 Qed.
 
 (** tree impurity (after F41): the class weights are summed in class order, so the impurity does
